@@ -29,6 +29,50 @@ IALIASES = ["lib", "tools", "ext", "sub", "q"]
 RESERVED = {"Aliases", "Default", "Main"}
 
 
+# ---------------------------------------------------------------- Go's strings.ToLower
+GO_LOWER = {}        # non-ASCII character -> Go's strings.ToLower of it (filled by the check from harness/docview)
+
+
+def fold(s):
+    """strings.ToLower(s) as Go computes it (rune by rune); ASCII by rule, other characters from GO_LOWER"""
+    return "".join(c.lower() if c.isascii() else GO_LOWER[c] for c in s)
+
+
+def inside_model(strings):
+    """the Coq model's ToLower is ASCII: a case is inside its fragment when Go's ToLower leaves every non-ASCII character alone"""
+    return all(c.isascii() or GO_LOWER[c] == c for x in strings for c in x)
+
+
+def strings_of(spec):
+    out = list(spec["words"]) + list(spec.get("nonwords", [])) + [a["key"] for a in spec["aliases"]]
+    for t in spec["locals"]:
+        out += [t["recv"], t["name"]]
+    for i in spec["imports"]:
+        out.append(i["alias"])
+        for t in i["tgts"]:
+            out += [t["recv"], t["name"]]
+    return out
+
+
+# pairs of letters differing in case outside ASCII (what Go's ToLower makes of them is asked from Go, not assumed):
+# U/u-umlaut, E-acute, Sigma/sigma, Cyrillic De, DZ-caron digraph (upper, title, lower), dotted capital I / i, Kelvin sign / k
+UNI_SAME = [("\u00dc", "\u00fc"), ("\u00c9", "\u00e9"), ("\u03a3", "\u03c3"), ("\u0414", "\u0434"), ("\u01c4", "\u01c6"),
+            ("\u01c5", "\u01c6"), ("\u0130", "i"), ("\u212a", "k"), ("\u00dc", "\u00fc"), ("\u00c9", "\u00e9")]
+# look-alikes that are NOT one letter in two cases: final sigma / sigma, U-umlaut / o-umlaut, E-acute / e, sharp s / ss
+UNI_NEAR = [("\u03c3", "\u03c2"), ("\u00dc", "\u00f6"), ("\u00c9", "e"), ("\u0414", "\u043b"), ("\u00df", "ss"), ("\u03a3", "\u03c2")]
+_FLIP = {}
+for _a, _b in UNI_SAME:
+    if len(_b) == 1 and not _b.isascii():
+        _FLIP.setdefault(_a, _b)
+        _FLIP.setdefault(_b, _a)
+
+
+def wcase(rng, w):
+    """a word as typed: random ASCII letter case, and the other case of some non-ASCII letters"""
+    s = rcase(rng, w, False)
+    return "".join(_FLIP[c] if (c in _FLIP and rng.random() < 0.5) else c for c in s)
+
+
 # ---------------------------------------------------------------- spellings
 def rcase(rng, w, exported=True):
     """random letter case of the ASCII letters (other characters are left alone: the model's ToLower is ASCII)"""
@@ -642,6 +686,66 @@ def k_alias_key_spelling(P, c):
         P.alias(variant(rng, keys[0], False), tgt)
 
 
+def k_nonascii_case(P, c):
+    """collision partners differing only in the case of a NON-ASCII letter (target/target, namespace methods,
+    alias/target, alias/alias, root import/local); near-miss: look-alike letters that are not one letter in two cases"""
+    rng = P.rng
+    up, lo = rng.choice(UNI_SAME if c else UNI_NEAR)
+    stem = P.word()
+    k = rng.randrange(1, len(stem) + 1)
+    a_, b_ = stem[:k] + up + stem[k:], stem[:k] + lo + stem[k:]          # first letter stays an ASCII capital: exported
+    other = P.local("", rcase(rng, P.word()))
+    sub = rng.choice(["tt", "mm", "at", "aa", "il", "at1"])
+    if sub == "tt":
+        P.local("", a_)
+        P.local("", b_)
+    elif sub == "mm":
+        ns = P.nsword()
+        P.local(ns, a_)
+        P.local(ns, b_)
+    elif sub == "at":
+        P.local("", a_)
+        P.alias(rcase(rng, b_, False), other)
+    elif sub == "at1":                                  # the letter in front: Uebersicht-like target, alias in the other case
+        t = up + stem.lower()
+        if not P.local("", t):
+            P.local("", a_)
+            t = a_
+        P.alias((lo + stem.lower()) if t != a_ else b_.lower(), other)
+    elif sub == "aa":
+        P.alias(rcase(rng, a_, False), other)
+        P.alias(rcase(rng, b_, False), P.local("", rcase(rng, P.word())))
+    else:
+        i = P.imp("")
+        P.itgt(i, "", a_)
+        P.local("", b_)
+
+
+def k_goflags_tags(P, c):
+    """GOFLAGS=-tags=ci: a file of an imported package constrained on ci / !ci holds a function spelled like a local
+    target; it counts exactly when the go tool compiles it under the same GOFLAGS.  collision: the file is compiled;
+    near-miss: the file is not compiled (or the name only resembles)"""
+    rng = P.rng
+    w = P.word()
+    P.local("", rcase(rng, w))
+    i = P.imp("", file=0)
+    P.itgt(i, "", rcase(rng, P.word()))
+    tags_ci = rng.random() < 0.6
+    on_ci = rng.random() < 0.5                           # the file wants ci (else !ci)
+    compiled = (tags_ci == on_ci)
+    if c and not compiled:
+        on_ci = not on_ci
+        compiled = True
+    resembles = (not c) and compiled                     # compiled but only a near-miss name
+    ident_ = P.itgt(i, "", near(rng, rcase(rng, w)) if resembles else rcase(rng, w))
+    if ident_:
+        i["tgts"][-1]["file"] = "zz_gated.go"
+        line = "//go:build ci" if on_ci else "//go:build !ci"
+        i["files"] = {"zz_gated.go": {"on": line, "off": line, "state": "on", "keep_times": False, "tgts_off": []}}
+    P.spec["mode"] = rng.choice(["GOFLAGS=-tags=ci", "GOFLAGS=-tags=ci -trimpath"]) if tags_ci else rng.choice(["plain", "GOFLAGS=-trimpath"])
+    P.spec["gate_by_tags"] = True
+
+
 KINDS = [("fn_case", k_fn_case), ("method_case", k_method_case), ("namespace_case", k_namespace_case),
          ("fn_vs_method", k_fn_vs_method), ("two_imports_one_alias", k_two_imports_one_alias),
          ("same_name_two_aliases", k_same_name_two_aliases), ("root_vs_local", k_root_vs_local), ("two_roots", k_two_roots),
@@ -653,7 +757,8 @@ KINDS = [("fn_case", k_fn_case), ("method_case", k_method_case), ("namespace_cas
          ("pkg_root_twice", k_pkg_root_twice),
          ("decoys", k_decoys), ("decoy_across", k_decoy_across),
          ("imported_aliases", k_imported_aliases), ("named_import_same_names", k_named_import_same_names),
-         ("alias_case", k_alias_case), ("alias_key_spelling", k_alias_key_spelling)]
+         ("alias_case", k_alias_case), ("alias_key_spelling", k_alias_key_spelling),
+         ("nonascii_case", k_nonascii_case), ("nonascii_case", k_nonascii_case), ("goflags_tags", k_goflags_tags)]
 
 # ways of invoking mage that must not influence what is accepted or which body runs: (flags, environment)
 MODES = {"plain": ([], {}), "-debug": (["-debug"], {}), "-v": (["-v"], {}), "MAGEFILE_DEBUG=1": ([], {"MAGEFILE_DEBUG": "1"}),
@@ -665,8 +770,36 @@ MODES = {"plain": ([], {}), "-debug": (["-debug"], {}), "-v": (["-v"], {}), "MAG
          "COLOR=true TERM=dumb": ([], {"MAGEFILE_ENABLE_COLOR": "true", "TERM": "dumb"}),
          "COLOR=true TERM=": ([], {"MAGEFILE_ENABLE_COLOR": "true", "TERM": ""}),
          "COLOR=true TARGET_COLOR=Red": ([], {"MAGEFILE_ENABLE_COLOR": "true", "MAGEFILE_TARGET_COLOR": "Red", "TERM": "xterm-256color"}),
-         "TARGET_COLOR=BrightCyan": ([], {"MAGEFILE_TARGET_COLOR": "BrightCyan", "TERM": "xterm-256color"})}
+         "TARGET_COLOR=BrightCyan": ([], {"MAGEFILE_TARGET_COLOR": "BrightCyan", "TERM": "xterm-256color"}),
+         # the go tool's environment
+         "GOFLAGS=-tags=ci": ([], {"GOFLAGS": "-mod=mod -tags=ci"}),
+         "GOFLAGS=-tags=ci -trimpath": ([], {"GOFLAGS": "-mod=mod -tags=ci -trimpath"}),
+         "GOFLAGS=-trimpath": ([], {"GOFLAGS": "-mod=mod -trimpath"})}
+
+
+def mode_has_ci(mode):
+    return "-tags=ci" in MODES[mode][1].get("GOFLAGS", "")
+
+
+def gate_by_tags(spec):
+    """switch every file constrained on ci / !ci on or off as the go tool would under the spec's GOFLAGS"""
+    ci = mode_has_ci(spec.get("mode", "plain"))
+    for holder, key in [(spec, "locals")] + [(i, "tgts") for i in spec["imports"]]:
+        for fn_, g in holder.get("files", {}).items():
+            if g["on"] not in ("//go:build ci", "//go:build !ci"):
+                continue
+            want = (g["on"] == "//go:build ci") == ci
+            if want and g["state"] == "off":
+                holder[key] += g["tgts_off"]
+                g["tgts_off"], g["state"] = [], "on"
+            elif not want and g["state"] == "on":
+                g["tgts_off"] = [t for t in holder[key] if t.get("file") == fn_]
+                gone = set(t["id"] for t in g["tgts_off"])
+                holder[key][:] = [t for t in holder[key] if t.get("file") != fn_]
+                spec["aliases"] = [x for x in spec["aliases"] if x["ref"] not in gone]
+                g["state"] = "off"
 MODE_POOL = ["plain"] * 5 + ["-debug"] * 3 + ["MAGEFILE_DEBUG=1"] * 2 + ["-v", "MAGEFILE_VERBOSE=1", "-f", "MAGEFILE_HASHFAST=1"] + \
+            ["GOFLAGS=-tags=ci", "GOFLAGS=-tags=ci -trimpath", "GOFLAGS=-trimpath"] + \
             ["COLOR=true TERM=xterm-256color"] * 2 + ["COLOR=1 TERM=vt100", "COLOR=true TERM=xterm", "COLOR=true TERM=dumb", "COLOR=true TERM=",
                                                     "COLOR=true TARGET_COLOR=Red", "TARGET_COLOR=BrightCyan"]
 
@@ -726,9 +859,9 @@ def choose_words(P):
     ws = []
     defs = all_defs(spec)
     for i, a in exposures(spec):
-        ws.append(rcase(rng, runnable(defs[i], a), False))
+        ws.append(wcase(rng, runnable(defs[i], a)))
     for a in spec["aliases"]:
-        ws.append(rcase(rng, a["key"], False))
+        ws.append(wcase(rng, a["key"]))
         if rng.random() < 0.3:
             ws.append(a["key"])
     rng.shuffle(ws)
@@ -917,8 +1050,10 @@ def generate(rng, reps, soups, hists=1):
                 if rng.random() < 0.3:
                     rng.shuffle(P.spec["locals"])
                 P.finish()
+                if "mode" not in P.spec:
+                    P.spec["mode"] = rng.choice(MODE_POOL)
+                gate_by_tags(P.spec)
                 choose_words(P)
-                P.spec["mode"] = rng.choice(MODE_POOL)
                 specs.append([P.spec])
         # two collisions of different kinds in one package (which one is reported first is not compared)
         for _ in range(3):
